@@ -50,10 +50,16 @@ impl Prop for C14 {
         // make sure there is a flush after some data, with files possibly still open
         let pos = ops.iter().rposition(|o| matches!(o, WOp::Append { .. } | WOp::Add { .. })).map(|p| p + 1).unwrap_or(ops.len());
         ops.insert(pos, WOp::Flush);
+        let mut aligned = None;
         if big && rng.chance(1, 2) {
-            // production constants: solve the position of the last flush onto / next to a REAL block edge
+            // production constants: solve the position of one flush onto / next to a REAL block edge
             // (compression: the block holds exactly 4 MiB, or 1 byte, when flush is called) or chunk edge (encryption only)
-            if let Some(fi) = ops.iter().rposition(|o| matches!(o, WOp::Flush)) {
+            // prefer a flush that directly follows appended content: then the last bytes of the full block are
+            // file bytes (after an EndOfFile block they are the stored hash, whose loss costs no file byte)
+            let flushes: Vec<usize> = (0..ops.len()).filter(|&i| matches!(ops[i], WOp::Flush)).collect();
+            let after_content: Vec<usize> = flushes.iter().copied().filter(|&i| i > 0 && matches!(&ops[i - 1], WOp::Append { data, .. } if data.len() > 0)).collect();
+            let chosen = if !after_content.is_empty() && rng.chance(3, 4) { Some(*rng.pick(&after_content)) } else { flushes.last().copied() };
+            if let Some(fi) = chosen {
                 let (m, r) = if cfg.comp() {
                     cfg.level = cfg.level.min(5);
                     (vc.block as usize, *rng.pick(&[0usize, 0, 1, vc.block as usize - 1]))
@@ -62,7 +68,9 @@ impl Prop for C14 {
                 };
                 if cfg.comp() || cfg.enc() {
                     let (head, _) = ops.split_at_mut(fi);
-                    align_stream(head, m, r);
+                    if align_stream(head, m, r) {
+                        aligned = Some((m, r));
+                    }
                 }
             }
         }
@@ -72,6 +80,10 @@ impl Prop for C14 {
             case.sink = crate::seams::Sched::make(&mut rng, true);
         }
         case.params.insert("later_seed".into(), (rng.u64() >> 1) as i64);
+        if let Some((m, r)) = aligned {
+            case.params.insert("aligned_mod".into(), m as i64);
+            case.params.insert("aligned_res".into(), r as i64);
+        }
         case
     }
     fn exec(&self, case: &Case, ctx: &mut Ctx) -> Vec<Violation> {
